@@ -68,6 +68,44 @@ U_L = {"g": [[], [0], [1], [2], [3], [4], [5]], "ch": [[], [1], [3], [4], [1, 5]
 U_M = {"g": [[], [0], [0], [1, 2], [2, 1], [3, 4], [5]], "ch": [[], [1], [3], [4], [6], [1, 5], [7]], "late": []}
 
 
+# trunk r0..r3, feature r4 = [r1], r5 = merge of the trunk tip into the feature = [r4, r3], r6 = [r5]
+U_F = {"g": [[], [0], [1], [2], [1], [4, 3], [5]], "ch": [[], [1], [3], [6], [4], [7], [1]], "late": []}
+
+
+def _feature_universe(rng):
+    """a trunk, a feature branch forked from it, the trunk merged into the feature (once or twice), more
+    feature work: the shape whose incremental push puts a merge's LEFT parent into the stacked repository
+    while its right-hand parent lives only in the fallback"""
+    nt = rng.randint(2, 5)
+    g = [[]] + [[i] for i in range(nt - 1)]                  # trunk 0..nt-1
+    fork = rng.randrange(nt - 1)
+    g.append([fork])
+    tip = len(g) - 1
+    feature = [tip]
+    merged = fork
+    for _ in range(rng.randint(1, 4)):
+        if merged < nt - 1 and rng.random() < 0.6:
+            merged = rng.randint(merged + 1, nt - 1)
+            g.append([tip, merged])
+        else:
+            g.append([tip])
+        tip = len(g) - 1
+        feature.append(tip)
+    ch = [sorted(rng.sample(C.KINDS, rng.choice([1, 1, 2]))) for _ in g]
+    return {"g": g, "ch": ch, "late": []}, nt, feature
+
+
+def _feature_case(rng):
+    u, nt, feature = _feature_universe(rng)
+    ops = []
+    for r in feature:
+        if rng.random() < 0.75 or r == feature[-1]:
+            entry = rng.choice(["push", "pull", "fetch", "fetch"])
+            ops.append(["fetch", r, entry == "fetch" and rng.random() < 0.3, entry])
+    sv, tv = rng.choice([("local", "local"), ("local", "local"), ("local", "smart"), ("smart", "local")])
+    return _case(u, [nt - 1], ops, "2a", sv, tv)
+
+
 def _case(u, fb, ops, sf="2a", sv="local", tv="local", stacked=True):
     return {"u": u, "src_fmt": sf, "tgt_fmt": "2a", "src_via": sv, "tgt_via": tv,
             "fb": list(fb) if stacked else None, "seed": [] if stacked else list(fb), "extra": [], "ops": ops}
@@ -83,6 +121,11 @@ def corpus():
                                 ["fetch", 7, False, "pull"]]))             # commit with a ghost parent: refused
     out.append(_case(U_A, [2], [["fetch", 4, False, "push"], ["commit", 5]], stacked=False))   # unstacked: accepted
     out.append(_case(U_M, [1], [["commit", 2], ["commit", 3], ["fetch", 4, False, "pull"], ["commit", 5], ["commit", 6]]))
+    # incremental push of "merge trunk into feature": the merge's left parent is already in the stacked
+    # repository, its right-hand parent only in the fallback
+    out.append(_case(U_F, [3], [["fetch", 4, False, "push"], ["fetch", 5, False, "push"]]))
+    out.append(_case(U_F, [3], [["fetch", 4, False, "fetch"], ["fetch", 6, False, "pull"]], tv="smart"))
+    out.append(_case(U_F, [2], [["commit", 4], ["fetch", 3, False, "fetch"], ["fetch", 6, True, "fetch"]], sv="smart"))
     # regression inputs of the former finding C08-stacked-merge-commit-heads (merge commits into a stacked branch)
     out.append(_case(U_M, [0], [["commit", 1], ["commit", 2], ["commit", 3], ["commit", 4], ["commit", 5]], tv="smart"))
     out.append(_case(U_M, [2], [["fetch", 1, False, "fetch"], ["commit", 3], ["commit", 4], ["commit", 5]]))
@@ -157,6 +200,8 @@ def cases(rng, tier):
             c = _random_case(rng, u)
             if _legal(c):
                 yield c
+    for _ in range(6 if tier == "quick" else 48):
+        yield _feature_case(rng)
 
 
 def impl(case):
